@@ -29,6 +29,7 @@ func runC17(c *Ctx) {
 	r.Rule("C17.1", "schema-lint: shipped schema files are well-formed draft-07 with resolvable references", 5)
 	r.Rule("C17.2", "funnel: all entry points decide through (*Schema).validate; nil and none schemas accept", 8)
 	r.Rule("C17.3", "contents-reached: both encodings are decoded for, and reach, the annotation content check", 5)
+	untypedAnnotationsCopied(c, "C17.3", "untyped-annotations-copied")
 
 	// ---- C17.1
 	sf := loadSchemaFiles(c, "C17.1")
@@ -205,6 +206,12 @@ func runC17(c *Ctx) {
 				if a[0] != ssa.Value(vd.Params[1]) && a[0] != loaderBytes {
 					return false
 				}
+				// a JSON decoder reads the input only in its JSON form (what the schema is given);
+				// applied to the raw input it fails - silently, the error is not looked at - for
+				// every YAML document, whose contents would then go unchecked
+				if strings.HasPrefix(f.String(), "encoding/json.") && a[0] != loaderBytes {
+					return false
+				}
 				// &any, possibly boxed in an interface
 				v := a[1]
 				if mi, ok := v.(*ssa.MakeInterface); ok {
@@ -288,6 +295,24 @@ func c17Loaders(c *Ctx, rule string) {
 			}
 		}
 		r.Check(rule, "ValidateType:loader", ok && len(found) == 1, c.U.Pos(vt.Pos()), fmt.Sprintf("ValidateType validates the object it was given (Go loader of %v; a copy decoded into map[string]interface{} would round every integer to float64)", found))
+	}
+	// ValidateData hands the schema the document as JSON TEXT (numbers keep all their digits):
+	// a Go loader of the decoded map would show the schema float64 values
+	if vd := c.U.Func("schema", "(*Schema).ValidateData"); vd != nil {
+		nBytes, nOther := 0, ""
+		for _, call := range c.callsTo(vd, false, "schema", "(*Schema).validate") {
+			v := call.Common().Args[1]
+			if mi, ok := v.(*ssa.MakeInterface); ok {
+				v = mi.X
+			}
+			lc, ok := v.(*ssa.Call)
+			if ok && lc.Call.StaticCallee() != nil && lc.Call.StaticCallee().String() == "github.com/xeipuuv/gojsonschema.NewBytesLoader" {
+				nBytes++
+			} else {
+				nOther += " " + c.exprDesc(call.Common().Args[1])
+			}
+		}
+		r.Check(rule, "ValidateData:loader", nBytes >= 1 && nOther == "", c.U.Pos(vd.Pos()), "ValidateData validates the JSON text of the document (bytes loader), not a decoded copy whose integers went through float64 (other loaders:"+nOther+")")
 	}
 	for _, name := range []string{"ValidateData", "ValidateType"} {
 		fn := c.U.Func("schema", "(*Schema)."+name)
